@@ -467,7 +467,9 @@ class Recorder:
         if k is not None and self.tasks[k]["kind"] == "sender":
             self.tasks[k]["pc"] = "cleared"
             self.emit("Task %d" % k)
-        # a clear by the control loop (on_tick) is part of the tick action that follows
+        else:
+            # the clearing write of on_tick (control loop task): its own action, the tick follows
+            self.emit("EClear")
 
     def on_status(self, status):
         if self.skip:
